@@ -300,6 +300,34 @@ def correspond(ctx):
                         report(f'1d:{name}:no-x', f'{name}: omitting x differs from passing linspace(-1, 1, N)', {'method': name, 'variant': 'no-x'})
                 except Exception as ex:
                     ctx.notes.append(f'1d:{name}: no-x comparison raised {type(ex).__name__}')
+                # ... for data of another dtype as well (the implicit x must not inherit the data's dtype), through the fitter and
+                # the module-level function
+                for dlabel, dv in (('float32', np.asarray(d0, dtype=np.float32)), ('int64', np.round(d0).astype(np.int64))):
+                    fn = getattr(importlib.import_module('pybaselines.' + e['module']), name)
+                    for via in ('class', 'func'):
+                        try:
+                            with np.errstate(all='ignore'):
+                                if via == 'class':
+                                    b1, p1 = call1d(name, np.linspace(-1, 1, n), dv, kw, output_dtype=np.float64)
+                                else:
+                                    b1, p1 = fn(dv, x_data=np.linspace(-1, 1, n), **kw)
+                        except Exception:
+                            continue
+                        try:
+                            with np.errstate(all='ignore'):
+                                if via == 'class':
+                                    b0, p0 = call1d(name, None, dv, kw, output_dtype=np.float64)
+                                else:
+                                    b0, p0 = fn(dv, **kw)
+                        except Exception as ex:
+                            report(f'1d:{name}:no-x:{dlabel}:raises', f'{name}: {dlabel} data without x ({via}) raised {type(ex).__name__}: {ex} (with the explicit '
+                                   f'linspace(-1, 1, N) it returns)', {'method': name, 'variant': f'no-x-{dlabel}'})
+                            continue
+                        ctx.case(('1d', name, 'no-x', dlabel, via), nontrivial=True)
+                        ctx.count('variant:no-x-' + dlabel)
+                        if not eq(b0, b1):
+                            report(f'1d:{name}:no-x:{dlabel}', f'{name}: {dlabel} data without x ({via}) differs from passing linspace(-1, 1, N) by '
+                                   f'{float(np.max(np.abs(np.asarray(b0, float) - np.asarray(b1, float)))):.3g}', {'method': name, 'variant': f'no-x-{dlabel}'})
         # optimizers: wrapped method names in any letter case
         if name in ('collab_pls', 'optimize_extended_range', 'custom_bc'):
             for wrapped in (['asls', 'aspls', 'fabc', 'mpls', 'brpls', 'pspline_aspls'] if name == 'collab_pls' else ['asls', 'modpoly', 'mor']):
